@@ -530,11 +530,21 @@ func (c *clientComp) Derive(cs Case, implOut []string) ([]Op, []string) {
 		if len(toks) < 2 {
 			continue
 		}
+		mtok := ""
 		if strings.HasPrefix(toks[len(toks)-1], "M:") {
+			mtok = toks[len(toks)-1]
 			toks = toks[:len(toks)-1]
 		}
 		if toks[len(toks)-1] == "HANG" {
 			toks = toks[:len(toks)-1]
+		}
+		if mtok != "" {
+			// the client's own counters against the model's counters of the accepted run (C19_client_* theorems)
+			var fw, fwB, ak, akB int64
+			fmt.Sscanf(mtok, "M:%d:%d:%d:%d", &fw, &fwB, &ak, &akB)
+			ops = append(ops, Op{Name: "client tracem", Strs: toks})
+			impl = append(impl, fmt.Sprintf("ok fw=%d ack=%d", fw, ak))
+			continue
 		}
 		ops = append(ops, Op{Name: "client trace", Strs: toks})
 		impl = append(impl, "ok")
